@@ -546,6 +546,7 @@ type cResult struct {
 	Start    time.Time
 	End      time.Time
 	ParseErr error
+	Log      string // captured daemon log (empty when VERIF_DEBUGLOG is set)
 }
 
 func listTree(root string) []string {
@@ -620,6 +621,12 @@ func execPlain(sc *cScenario) *cResult {
 	os.MkdirAll(outDir, 0755)
 	res.OutDir = outDir
 	resetProcessGlobals()
+	var logBuf bytes.Buffer
+	if os.Getenv("VERIF_DEBUGLOG") == "" {
+		prev := log.Writer()
+		log.SetOutput(&logBuf) // the daemon's own log lines are an observable (bad-frame reports, throttle events)
+		defer func() { log.SetOutput(prev); res.Log = logBuf.String() }()
+	}
 	bubble(func(t *testing.T) {
 		res.Start = time.Now()
 		var conf *Config
@@ -1099,6 +1106,7 @@ func checkE2E(r *verifsim.Run, sc *cScenario, res *cResult) {
 	}
 	r.SimTime(res.End.Sub(res.Start))
 	expByDir := map[string][]wantRec{}
+	nBadDelivered := 0
 	sent := map[int]*cEvent{}
 	var span = [2]time.Time{res.Start, res.End}
 	nFilesExpected := 0
@@ -1175,6 +1183,7 @@ func checkE2E(r *verifsim.Run, sc *cScenario, res *cResult) {
 				break // other properties see the consequence in the files
 			}
 			if bad {
+				nBadDelivered++
 				r.Probe("bad-frame-" + c.Model)
 			} else if hasZero(e.Pix) {
 				r.Probe("border-zero-accepted")
@@ -1236,6 +1245,25 @@ func checkE2E(r *verifsim.Run, sc *cScenario, res *cResult) {
 		dir := filepath.Dir(f)
 		actByDir[dir] = append(actByDir[dir], res.Decoded[f])
 	}
+	// C13: every bad frame is reported (handleConn's log line precedes the event and the restart request,
+	// which go out over D-Bus and are not observable here; their presence in the source is checked statically)
+	loadBadFrameBranch()
+	if badBranch.phrase == "" {
+		r.Probe("bad-frame-branch-has-no-log-line")
+	} else if os.Getenv("VERIF_DEBUGLOG") == "" {
+		got := strings.Count(res.Log, badBranch.phrase)
+		if got != nBadDelivered {
+			sig := "missing"
+			if got > nBadDelivered {
+				sig = "spurious"
+			}
+			r.Violate("C13", "C13.reported", sig, "%d bad frames were delivered, the daemon's bad-frame branch (event + camera restart request) ran %d times (its log line %q)", nBadDelivered, got, badBranch.phrase)
+		} else if nBadDelivered > 0 {
+			r.Probe("bad-frame-report-logged")
+		}
+	}
+	checkBadFrameBranch(r)
+	checkThrottleEvents(r, res)
 	// C13: no bad frame in any file
 	badSums := map[uint64]int{}
 	for id, e := range sent {
@@ -2081,4 +2109,50 @@ func attributeRecordingRules(r *verifsim.Run, sc *cScenario, exp []refRec, act [
 		}
 	}
 	r.Probe("world-c-files-mapped-to-frames")
+}
+
+// checkThrottleEvents: world-C observation for C06's "exactly one 'throttled' event per suppressed start
+// or cut". The event goes to the events service over D-Bus, which the simulation does not have, so each
+// attempt ends in the recorder's own "Could not record throttle event" log line: the number of attempts
+// must equal the number of throttle decisions the throttler logged. The three texts are looked up in the
+// source first (a reworded log line turns the observation off instead of raising an alarm), and the rule
+// is skipped on a host that has a system bus.
+var throttleTexts struct {
+	done                     bool
+	ok                       bool
+	attempt, suppressed, cut string
+}
+
+func checkThrottleEvents(r *verifsim.Run, res *cResult) {
+	t := &throttleTexts
+	if !t.done {
+		t.done = true
+		t.attempt, t.suppressed, t.cut = "Could not record throttle event", "recording not started due to throttling", "recording throttled"
+		ev, err1 := os.ReadFile(filepath.Join(repoRoot(), "throttle/throttled_event_recorder.go"))
+		th, err2 := os.ReadFile(filepath.Join(repoRoot(), "throttle/throttled_recorder.go"))
+		busless := os.Getenv("DBUS_SYSTEM_BUS_ADDRESS") == ""
+		for _, p := range []string{"/var/run/dbus/system_bus_socket", "/run/dbus/system_bus_socket"} {
+			if _, err := os.Stat(p); err == nil {
+				busless = false
+			}
+		}
+		t.ok = err1 == nil && err2 == nil && busless &&
+			bytes.Count(ev, []byte(`"`+t.attempt)) == 3 && // every exit of WhenThrottled without a bus
+			bytes.Count(th, []byte(`log.Print("`+t.suppressed+`")`)) == 1 && bytes.Count(th, []byte(`log.Print("`+t.cut+`")`)) == 1
+	}
+	if !t.ok || os.Getenv("VERIF_DEBUGLOG") != "" {
+		r.Probe("throttle-event-observation-off")
+		return
+	}
+	attempts := strings.Count(res.Log, t.attempt)
+	decisions := strings.Count(res.Log, t.suppressed) + strings.Count(res.Log, t.cut)
+	if attempts != decisions {
+		sig := "missing"
+		if attempts > decisions {
+			sig = "spurious"
+		}
+		r.Violate("C06", "C06.events", "daemon:"+sig, "the throttler logged %d throttle decisions (suppressed starts + cuts) but %d 'throttled' events were handed to the events service", decisions, attempts)
+	} else if decisions > 0 {
+		r.Probe("throttle-events-observed-in-daemon")
+	}
 }
